@@ -24,7 +24,7 @@ EXPLANATION = ('Bounded exploration of payload texts x placement contexts, enume
 RULE = ('one job per (context, first symbol); a case = one payload in one context; non-trivial = job closed over its whole sub-space, or a replayed '
         'counterexample')
 
-SYMS = ["'", '"', '\\', '\n', '#', '{', '}', '%', 'a', '(', ')', ' ', '*', '?', '~', '+CANARY()+', "__import__('os')", '{titles}', "'+CANARY()+'", '=1+1', '=CANARY()', '>0', ' or CANARY()', '<>1 if CANARY() else 2']
+SYMS = ["'", '"', '"""', '\\', '\n', '#', '{', '}', '%', 'a', '(', ')', ' ', '*', '?', '~', '+CANARY()+', "__import__('os')", '{titles}', "'+CANARY()+'", '=1+1', '=CANARY()', '>0', ' or CANARY()', '<>1 if CANARY() else 2']
 CONTEXTS = ['constant', 'literal', 'criterion', 'gt_amp', 'search', 'datedif', 'title', 'countifs2']
 
 
@@ -150,8 +150,8 @@ def _job(ctx, first, maxlen, timeout, kfs=()):
         return None if out is None else dict(text=s, safety=sv, ctx=ctx, why=out)
     def is_known(out):
         for i, e in enumerate(kfs):
-            if e.get('context') == out['ctx'] and e.get('contains') and e['contains'] in out['text']:
-                return f'kf{i}'
+            if e.get('context') == out['ctx'] and e.get('contains') and e['contains'] in out['text'] and is_pattern(out['text']):
+                return f'kf{i}'         # only texts with a live (unescaped) wildcard are lexed as patterns
         return None
     r = e2.explore(run, timeout=timeout, max_failures=3, is_known=is_known)
     shutil.rmtree(d, ignore_errors=True)
@@ -181,9 +181,9 @@ def run(report, tier, seed):
     for ctx, a in sorted(agg.items()):
         cname = 'inert.' + ctx
         fails = a['fails']
-        unknown = [f for f in fails if not any(e.get('context') == ctx and e.get('contains') and e['contains'] in f['text'] for e in kfs)]
+        unknown = [f for f in fails if not any(e.get('context') == ctx and e.get('contains') and e['contains'] in f['text'] and is_pattern(f['text']) for e in kfs)]
         for e in kfs:
-            hit = [f for f in fails if e.get('context') == ctx and e.get('contains') and e['contains'] in f['text']]
+            hit = [f for f in fails if e.get('context') == ctx and e.get('contains') and e['contains'] in f['text'] and is_pattern(f['text'])]
             if hit:
                 report.condition(cname + '#known', 'E2', 'known', 0, len(hit), e.get('what', ''))
                 report.known_finding(f'context {ctx}: payload {hit[0]["text"]!r}: {hit[0]["why"]} :: {e.get("what", "")}', key=e.get('what'))
